@@ -67,6 +67,10 @@ impl OptSet {
 			absolute_consistency: false,
 		}
 	}
+	pub fn l0_files(mut self, n: usize) -> Self {
+		self.level0_max_files = n;
+		self
+	}
 	pub fn levels(mut self, n: u8) -> Self {
 		self.level_count = n;
 		self
@@ -719,6 +723,19 @@ impl World {
 			}
 		};
 		let exp = self.model.state(self.model.len());
+		if self.opt.versioning.is_some() {
+			// a time-range history scan first: whatever it leaves in the caches must not change
+			// the answers of the plain reads that follow
+			let o = surrealkv::HistoryOptions::new().with_tombstones(true).with_ts_range(0, u64::MAX);
+			if let Ok(mut it) = txn.history_with_options(LO, HI, &o) {
+				let mut ok = it.seek_first().unwrap_or(false);
+				let mut n = 0;
+				while ok && n < 1000 {
+					n += 1;
+					ok = it.next().unwrap_or(false);
+				}
+			}
+		}
 		check_view("fresh", &txn, &exp, keys)
 	}
 
